@@ -659,3 +659,75 @@ def r03_7(ctx):
             ctx.ok("%s: %s += count" % (role_name.split("_", 1)[1], fld), site=ctx.site(b, 0))
         else:
             ctx.violation([role_name, fld], "%s no longer adds its count to %s only" % (role_name, fld), site=ctx.site(b, 0))
+
+
+def _via_field(b, op, field, extra=()):
+    """does the operand derive from struct field `field` through map/entry accessors?"""
+    acc = ("std::collections::HashMap::<K, V, S, A>::entry", "std::collections::hash_map::Entry::<'a, K, V>::or_default",
+           "std::collections::hash_map::Entry::<'a, K, V, A>::or_insert", "std::collections::hash_map::Entry::<'a, K, V, A>::or_insert_with",
+           "std::collections::HashMap::<K, V, S, A>::get_mut", "std::collections::HashMap::<K, V, S, A>::get",
+           "std::option::Option::<T>::unwrap", "std::option::Option::<T>::expect") + tuple(extra)
+    lv = C.trace(b, op, through_fields=True, transparent=lambda t: C.is_transparent(t) or C.callee_name(t) in acc)
+    return has_field(lv, field)
+
+
+@rule("C02", "R02.8", floor=2)
+def r02_8(ctx):
+    """DepManager pairing: every recorded edge is counted; every finished edge is either un-counted or releases its depender"""
+    lib = ctx.lib
+    ad = body(ctx, "add_dependency")
+    if ad:
+        heads = [bb for bb, t in ad.calls() if C.callee_name(t).endswith("as std::iter::Iterator>::next")]
+        rets = [bb for bb in C.live(ad) if ad.term(bb)["k"] == "return"]
+        incs = []
+        for bb, si, st in ad.stmts():
+            if st["k"] == "assign" and st["lhs"]["p"] and st["rv"]["k"] == "use" and _via_field(ad, st["lhs"], "out_edge_counts"):
+                for l in C.trace(ad, st["rv"]["op"]):
+                    if l.kind == "binop" and l.data["op"].startswith("Add") and has_const(C.trace(ad, l.data["b"]), "1_usize"):
+                        incs.append(bb)
+        sites = []
+        for bb, t in ad.calls():
+            nm = C.callee_name(t)
+            if nm == HS_INSERT and _via_field(ad, t["args"][0], "in_edges"):
+                sites.append((bb, t, "set"))
+            elif nm == "std::collections::HashMap::<K, V, S, A>::insert" and _via_field(ad, t["args"][0], "in_edges"):
+                sites.append((bb, t, "map"))
+        if not sites or not incs:
+            ctx.anchor_missing("edge insertion / counter increment in add_dependency")
+        for bb, t, kind in sites:
+            start = set()
+            if kind == "set":
+                # only a NEW edge (insert == true) must be counted
+                start = bool_call_edges(ad, lib, HS_INSERT, True, arg_pred=lambda tt, t=t: tt is t)
+            if not start:
+                start = out_edges(ad, [bb])
+            reached = ad.reachable_from_edges(start, cut=out_edges(ad, incs))
+            esc = [h for h in heads + rets if h in reached and h not in incs]
+            if esc:
+                ctx.violation(["edge-not-counted", kind], "add_dependency can record a new dependency edge without incrementing the depender's "
+                              "outstanding-dependency counter: the depender would be released when the first of its dependencies finishes",
+                              site=ctx.site(ad, bb))
+            else:
+                ctx.ok("recorded edge is counted (%s insert)" % kind, site=ctx.site(ad, bb))
+    nf = body(ctx, "notify_finish")
+    if nf:
+        heads = [bb for bb, t in nf.calls() if C.callee_name(t).endswith("as std::iter::Iterator>::next")]
+        some_e = enum_edges(nf, lib, "std::option::Option", lambda vs: vs == {"Some"},
+                            src_pred=lambda c: any(l.kind == "call" and C.callee_name(l.data).endswith("as std::iter::Iterator>::next") for l in c.src))
+        decs = []
+        for bb, si, st in nf.stmts():
+            if st["k"] == "assign" and st["lhs"]["p"] and st["rv"]["k"] == "use" and _via_field(nf, st["lhs"], "out_edge_counts"):
+                for l in C.trace(nf, st["rv"]["op"]):
+                    if l.kind == "binop" and l.data["op"].startswith("Sub") and has_const(C.trace(nf, l.data["b"]), "1_usize"):
+                        decs.append(bb)
+        rels = [bb for bb, t in calls_to(nf, HS_INSERT) if not has_field(C.trace(nf, t["args"][0]), "finished")]
+        if not heads or not some_e or not (decs and rels):
+            ctx.anchor_missing("depender loop with decrement and release in notify_finish")
+        else:
+            reached = nf.reachable_from_edges(some_e, cut=out_edges(nf, decs + rels))
+            esc = [h for h in heads if h in reached]
+            if esc:
+                ctx.violation(["edge-dropped"], "notify_finish can drop a finished edge without decrementing the depender's counter or releasing it "
+                              "(the depender is silently never rebuilt)", site=ctx.site(nf, esc[0]))
+            else:
+                ctx.ok("every finished edge either decrements the counter or releases the depender", site=ctx.site(nf, decs[0]))
